@@ -412,6 +412,7 @@ def tasks():
         t.finding_key = w6_key
         ts.append(t)
     ts.append(LoopControlParse())
+    ts += extra_kw_tasks()
     return ts
 
 
@@ -455,3 +456,45 @@ class LoopControlParse(VC):
 
     def finding_key(self, res):
         return "loopcontrol-outside-loop"
+
+
+# ------------------------------------------------------------------------------------------------ W2 (generator-added keywords)
+
+def extra_kw_pred(sc, tree, ph, txt):
+    """keyword names of one emitted call are distinct: a keyword written from template data must be known to differ from
+    the keywords the generator adds itself (caller= of a call block, _loop_vars=, _block_vars=)"""
+    if sc.outcome == "raise":
+        return []
+    fails = []
+    for call in [n for n in ast.walk(tree) if isinstance(n, ast.Call)]:
+        own = [k.arg for k in call.keywords if k.arg and k.arg not in ph]
+        data = [k.arg for k in call.keywords if k.arg and k.arg in ph and isinstance(ph[k.arg], tuple) and ph[k.arg][0] == "ident"]
+        for d in data:
+            term = ph[d][1]
+            for g in own:
+                if not sc.holds(term != z3.StringVal(g)):
+                    fails.append(f"the template keyword «{term}» may equal the generator's own keyword {g}= in the same call: {txt[:140]}")
+    return fails[:2]
+
+
+def replay_extra_kw(w=None):
+    env = jinja2.Environment()
+    srcs = ["{% call f(caller=1) %}x{% endcall %}", "{% for x in y %}{{ f(_loop_vars=1) }}{% endfor %}", "{% block b %}{{ f(_block_vars=1) }}{% endblock %}"]
+    for src in srcs:
+        try:
+            env.from_string(src)
+        except TemplateSyntaxError:
+            continue
+        except BaseException as ex:  # noqa
+            return (True, f"{src} -> {type(ex).__name__}: {ex}")
+    return (False, "keywords colliding with generator-added keywords are rejected with TemplateSyntaxError")
+
+
+def extra_kw_tasks():
+    ts = []
+    for label, kw in (("call", None), ("call_block", {"forward_caller": True})):
+        t = EmitTask(PROP, f"C01.emit.wellformed.W2.extra_kwargs.{label}", "jinja2.compiler:CodeGenerator.visit_Call", N.Call, extra_kw_pred,
+                     replay_fn=replay_extra_kw, min_paths=64, install_opts={"modular_signature": False}, extra_kwargs=kw)
+        t.finding_key = lambda res: "generator-keyword-collision"
+        ts.append(t)
+    return ts
